@@ -34,38 +34,9 @@ def run(ctx, res):
     from . import bbrule as _bb
     _bb.entry_encoding(ctx, res, "C09.R1")      # the entry row and block trailer, decided on the bytes produced (was: a shape recogniser)
     fmt.restart_width_check(ctx, res, "C09.R1")
-    # framing
-    wb = prog.need("_mtbl_writer_write_block", W)
-    res.saw(wb)
-    ev = APE.run(prog, cg, wb, bound=APE.BOUND)
-    for p in ev.paths:
-        if p.end != "exit":
-            continue
-        evs = [e for e in p.events if e.kind == "call"]
-        enc = [e for e in evs if e.a == "mtbl_varint_encode64"]
-        wr = [e for e in evs if e.a == "_write_all"]
-        # decided on the values that reach the calls (not on how the arguments are spelled: a table of parts, locals, ...)
-        good = len(enc) == 1 and len(wr) == 3 and len(enc[0].b) >= 2 and strip_tags(APE.vstr(enc[0].b[1])) == "b->len_data"
-        if good:
-            good = wr[0].b[1] == enc[0].b[0] and wr[0].b[2] == enc[0].c and \
-                strip_tags(APE.vstr(wr[1].b[1])) == "&b->crc" and wr[1].b[2] == ("c", 4) and \
-                strip_tags(APE.vstr(wr[2].b[1])) == "b->data" and wr[2].b[2] == enc[0].b[1] and \
-                all(w.b[0] == ("s", wb.params[0]["name"]) for w in wr)
-        res.check(good, "C09.R1", site(wb, "frame"), "framed block = varint64 stored length, 4-byte CRC, stored bytes, in that order to the same descriptor",
-                  "block framing is written as %s" % [[APE.vstr(x) for x in w.b] for w in wr], wb.loc(wb.body), p.describe(wb))
-        r = p.ret()
-        sumok = False
-        if good and r is not None:
-            tot, c0 = {}, 0
-            for w in wr:
-                t_, c_ = linsum(APE.vstr(w.b[2]), tags=True)
-                c0 += c_
-                for k_, v_ in t_.items():
-                    tot[k_] = tot.get(k_, 0) + v_
-            tr, cr = linsum(APE.vstr(r), tags=True)
-            sumok = (tr, cr) == ({k_: v_ for k_, v_ in tot.items() if v_}, c0)
-        res.check(sumok, "C09.R1", site(wb, "bytes-written"), "returned size = length prefix + 4 + stored bytes",
-                  "returned size %s is not the sum of the three parts written" % (APE.vstr(r) if r else None), wb.loc(wb.body))
+    # framing: decided on the bytes handed to the write loop on the paths of the block-writing functions (rules/framerule.py)
+    from . import framerule
+    framerule.frames(ctx, res, "C09.R1")
     # the CRC field is little-endian on the wire: stored through htole32 at both definition sites
     crc_defs = []
     for g in prog.unit_funcs(W):
@@ -191,46 +162,9 @@ def run(ctx, res):
             res.check(okform and v == frozenset((LT,)), "C09.R4", site(wadd, "no-cut"), "entry joins the open block only while the total stays below block_size",
                       "entry joins the open block on %s of estimate + %s + %s against block_size" % (sorted(v), k, rest), wadd.loc(wadd.body), p.describe(wadd))
 
-    # ---- R5 offsets ---------------------------------------------------------------------------
+    # ---- R5 offsets (rules/framerule.py: value-based, on the paths of the block-writing functions) --------------------
     res.floor("C09.R5", 3)
-    wdb = prog.need("_mtbl_writer_write_data_block", W)
-    ev = APE.run(prog, cg, wdb, bound=APE.BOUND)
-    for p in ev.paths:
-        if p.end != "exit":
-            continue
-        evs = [e for e in p.events if e.kind != "branch"]
-        enc = [e for e in evs if e.kind == "call" and e.a == "mtbl_varint_encode64"]
-        addi = [e for e in evs if e.kind == "call" and e.a == "block_builder_add"]
-        po = [e for e in evs if e.kind == "store" and e.a.endswith("->pending_offset")]
-        lo = [e for e in evs if e.kind == "store" and e.a.endswith("->last_offset")]
-        wbc = [e for e in evs if e.kind == "call" and e.a == "_mtbl_writer_write_block"]
-        good = len(enc) == 1 and len(addi) == 1 and len(po) == 1 and len(lo) == 1 and len(wbc) == 1
-        if good:
-            before = re.match(r"^w->pending_offset@\d+$", APE.vstr(lo[0].b)) is not None and evs.index(lo[0]) < evs.index(po[0])
-            good = before and enc[0].b[1] == lo[0].b and APE.vstr(po[0].b) == "(%s+%s)" % (APE.vstr(lo[0].b), APE.vstr(wbc[0].c))
-            a = call_args(addi[0].node)
-            good = good and canon(a[0]) == "w->index" and canon(a[1]) == "b->last_key" and canon(a[2]) == "b->len_last_key" and \
-                canon(a[3]) == canon(call_args(enc[0].node)[0]) and addi[0].b[4] == enc[0].c
-        res.check(good, "C09.R5", site(wdb, "index-entry"),
-                  "index entry (separator key, varint64 of the offset the block started at); pending_offset += bytes written",
-                  "index entry / offset bookkeeping differs: encoded %s, pending_offset := %s" % (
-                      APE.vstr(enc[0].b[1]) if enc else None, APE.vstr(po[0].b) if po else None), wdb.loc(wdb.body), p.describe(wdb))
-    ini = prog.need("mtbl_writer_init_fd", W)
-    ev = APE.run(prog, cg, ini, bound=APE.BOUND, opaque_calls=("lseek", "dup"))
-    for p in ev.paths:
-        if p.end != "exit":
-            continue
-        ls = p.calls("lseek")
-        po = [e for e in p.events if e.kind == "store" and e.a.endswith("->pending_offset")]
-        good = len(ls) == 1 and len(po) == 1 and po[0].b == ls[0].c and ls[0].b[1] == ("c", 0) and ls[0].b[2] == ("c", 1)
-        res.check(good, "C09.R5", site(ini, "initial-offset"), "pending_offset starts at the descriptor's current offset (bytes before it are left alone)",
-                  "writing does not start at the current file offset", ini.loc(ini.body), p.describe(ini))
-    writers = set()
-    for g in prog.unit_funcs(W):
-        for n, lhs in field_stores(g, "mtbl_writer", "pending_offset"):
-            writers.add(g.name)
-    res.check(writers == {"mtbl_writer_init_fd", "_mtbl_writer_write_data_block", "_mtbl_writer_finish"}, "C09.R5", "pending_offset:writers",
-              "pending_offset changes only at init, per data block and for the index block", "pending_offset is also changed by %s" % sorted(writers))
+    framerule.offsets(ctx, res, "C09.R5")
 
     # ---- R6 separator never drops below the block's last key ----------------------------------------
     res.floor("C09.R6", 12)
